@@ -240,7 +240,15 @@ func execConn(args []string) string {
 			case kind == "wr":
 				start(func() string { return retClass(conn.WriteMessage(gws.OpcodeText, []byte{byte(id), 0xff})) })
 			case kind == "c":
-				start(func() string { return retClass(conn.WriteClose(uint16(3000+id), nil)) })
+				// a local close is requested either through WriteClose or by sending a Close frame through the
+				// generic write API; which one is not part of the schedule (both are "a closer" of the model)
+				if (hashString(args[0])+uint64(id))%2 == 1 {
+					start(func() string {
+						return retClass(conn.WriteMessage(gws.OpcodeCloseConnection, []byte{byte((3000 + id) >> 8), byte(3000 + id)}))
+					})
+				} else {
+					start(func() string { return retClass(conn.WriteClose(uint16(3000+id), nil)) })
+				}
 			case kind[0] == 'f':
 				n, _ := strconv.Atoi(kind[1:])
 				var chunks [][]byte
